@@ -109,6 +109,98 @@ def alias_check(rep: C.Report) -> None:
         ob.detail += f"{type(e).__name__}: {e}"
 
 
+def class_level_state(rep: C.Report) -> None:
+    """Ob7: no mutable object is bound at CLASS level of a class whose instances are contexts (Wtp) or parse nodes and then
+    mutated through an instance (`self.X[...] = ...`, `self.X.append(...)`, ...): such an object is shared by every context in
+    the process, whatever its options.  Facts from the AST of core.py / parser.py: class-body assignments of dict / list / set
+    displays or dict()/list()/set()/defaultdict()/deque() calls (`__slots__` and constants that are never mutated are fine);
+    z3: finite query over (class attribute, mutation site) pairs.  Replay in a pristine interpreter: an English context
+    parses and expands a template, then a French context must behave exactly like a French context in a fresh process."""
+    ob = rep.add(C.Ob("Ob7 no mutable class-level attribute is mutated through an instance (state shared between contexts with different options)", "z3 over facts read from the AST (finite) + replay in a pristine interpreter", ["core.py:class Wtp", "parser.py:WikiNode classes"], "all class-body assignments and all self.<attr> mutation sites of the class"))
+    try:
+        MUT = {"update", "append", "extend", "add", "insert", "pop", "clear", "setdefault", "remove", "discard", "appendleft"}
+        pairs = []
+        n_attrs = 0
+        for mod in ("core.py", "parser.py"):
+            tree = ast.parse(open(os.path.join(C.SRC, mod)).read())
+            for cls in [n for n in tree.body if isinstance(n, ast.ClassDef)]:
+                cattrs = {}
+                for st in cls.body:
+                    tg, v = None, None
+                    if isinstance(st, ast.Assign) and len(st.targets) == 1 and isinstance(st.targets[0], ast.Name):
+                        tg, v = st.targets[0].id, st.value
+                    elif isinstance(st, ast.AnnAssign) and isinstance(st.target, ast.Name) and st.value is not None:
+                        tg, v = st.target.id, st.value
+                    if tg is None or tg == "__slots__":
+                        continue
+                    mutable = isinstance(v, (ast.Dict, ast.List, ast.Set, ast.DictComp, ast.ListComp, ast.SetComp)) or (isinstance(v, ast.Call) and isinstance(v.func, ast.Name) and v.func.id in ("dict", "list", "set", "defaultdict", "deque", "OrderedDict", "Counter"))
+                    if mutable:
+                        cattrs[tg] = st.lineno
+                n_attrs += len(cattrs)
+                if not cattrs:
+                    continue
+                # an instance attribute of the same name assigned in __init__ shadows the class attribute
+                init = [f for f in cls.body if isinstance(f, ast.FunctionDef) and f.name == "__init__"]
+                shadowed = set()
+                for f in init:
+                    for n in ast.walk(f):
+                        if isinstance(n, (ast.Assign, ast.AnnAssign)):
+                            for t in (n.targets if isinstance(n, ast.Assign) else [n.target]):
+                                if isinstance(t, ast.Attribute) and isinstance(t.value, ast.Name) and t.value.id == "self":
+                                    shadowed.add(t.attr)
+                for f in [f for f in ast.walk(cls) if isinstance(f, ast.FunctionDef)]:
+                    for n in ast.walk(f):
+                        hit = None
+                        if isinstance(n, ast.Call) and isinstance(n.func, ast.Attribute) and n.func.attr in MUT and isinstance(n.func.value, ast.Attribute) and isinstance(n.func.value.value, ast.Name) and n.func.value.value.id in ("self", "cls", cls.name):
+                            hit = n.func.value.attr
+                        elif isinstance(n, (ast.Assign, ast.AugAssign, ast.Delete)):
+                            for t in (n.targets if isinstance(n, (ast.Assign, ast.Delete)) else [n.target]):
+                                if isinstance(t, ast.Subscript) and isinstance(t.value, ast.Attribute) and isinstance(t.value.value, ast.Name) and t.value.value.id in ("self", "cls", cls.name):
+                                    hit = t.value.attr
+                        if hit in cattrs and hit not in shadowed:
+                            pairs.append((mod, cls.name, hit, cattrs[hit], n.lineno))
+        sol = z3.Solver()
+        i = z3.Int("i")
+        sol.add(i >= 0, i < len(pairs))
+        r = str(sol.check())
+        ob.queries = ob.paths = 1
+        ob.conditions = max(n_attrs, 1)
+        ob.samples.append({"mutable_class_level_attributes": n_attrs, "mutated_through_an_instance": [f"{m}:{c}.{a} (bound at line {l0}, mutated at line {l1})" for m, c, a, l0, l1 in pairs]})
+        if r == "unsat" and not C.distrust():
+            ob.verdict = C.DISCHARGED
+            ob.confirmed_conditions = ob.conditions
+            return
+        code = (
+            "import sys, json\n"
+            "from wikitextprocessor import Wtp\n"
+            "def run(lang, name, body, doc):\n"
+            "    w = Wtp(lang_code=lang, quiet=True, quiet_output=True)\n"
+            "    pfx = w.NAMESPACE_DATA['Template']['name']\n"
+            "    w.add_page(pfx + ':' + name, 10, body)\n"
+            "    w.start_page('T')\n"
+            "    d = doc.replace('PFX', pfx.lower())\n"
+            "    root = w.parse(d)\n"
+            "    names = [getattr(n, 'template_name', None) for n in root.children if hasattr(n, 'template_name')]\n"
+            "    w.start_page('T')\n"
+            "    return [w.expand(d), names, list(w.namespace_prefixes(10)) if hasattr(w, 'namespace_prefixes') else None]\n"
+            "if sys.argv[1] == 'both':\n"
+            "    run('en', 'hello', 'hello {{{1}}}', '{{PFX:hello|world}} {{hello|x}}')\n"
+            "print(json.dumps(run('fr', 'salut', 'bonjour {{{1}}}', '{{PFX:salut|monde}} {{salut|x}}')))\n"
+        )
+        outs = {}
+        for mode in ("fresh", "both"):
+            pr = subprocess.run([sys.executable, "-c", code, mode], capture_output=True, text=True, env={**os.environ, "PYTHONPATH": os.path.join(C.REPO, "src") + os.pathsep + os.environ.get("PYTHONPATH", "")})
+            outs[mode] = pr.stdout.strip() or ("ERR " + pr.stderr.strip()[-200:])
+        ob.samples.append({"replay": outs})
+        if outs["fresh"] != outs["both"] and not outs["fresh"].startswith("ERR"):
+            v = rep.violation("one process: a context with lang_code='en' parses and expands '{{template:hello|world}}', then a context with lang_code='fr' parses and expands '{{modèle:salut|monde}} {{salut|x}}'", f"the French context gives {outs['both'][:160]}; in a fresh process it gives {outs['fresh'][:160]}" + (f" ({pairs[0][1]}.{pairs[0][2]} is a class-level object mutated through instances)" if pairs else ""), {"code": code})
+            ob.verdict = C.VIOLATED if v.known is None else C.KNOWN
+        else:
+            ob.detail = f"class-level mutable state {[p[2] for p in pairs]} but a French context after an English one behaves like a fresh one -> inconclusive"
+    except Exception as e:  # noqa: BLE001
+        ob.detail += f"{type(e).__name__}: {e}"
+
+
 COUNTER_MOD = "local p = {}\nlocal n = 0\ncount_global = (count_global or 0)\nfunction p.f(frame) n = n + 1; count_global = count_global + 1; return tostring(n) .. '/' .. tostring(count_global) end\nreturn p"
 
 
@@ -414,6 +506,7 @@ def run(rep: C.Report) -> None:
     lua_stack_balance(rep)
     lua_data_caches(rep)
     captured_not_rebound(rep)
+    class_level_state(rep)
 
 
 def replay(r: dict) -> int:
